@@ -443,8 +443,8 @@ func uciCase(c Case, rec *evid.Rec) error {
 	ses.Send("fen")
 	ok2 := ses.Sync(30 * time.Second)
 	fenLine := ""
-	if ls := ses.Lines(); ok2 && len(ls) >= 2 {
-		fenLine = ls[len(ls)-2] // the line printed just before readyok
+	if ok2 {
+		fenLine = eng.LastFEN(strings.Join(ses.Lines(), "\n")) // the only `fen` answer of the session
 	}
 	quitOK := ses.Quit(30 * time.Second)
 	if !ok || !quitOK {
